@@ -10,6 +10,10 @@ BASELINE_OFF = ("cd /repo && env -u PYOPENAPI_GEN_VERIF /venv/bin/python -m pyte
 
 # id -> (category, technique, level text, level note, design ref)
 CHECKS = {
+    "C17": ("exploration", "runtime monitoring: wire capture under the real HttpxTransport + independent header/auth merge model",
+            "Every ordered selection of 0-3 of the 7 bundled auth plugin configurations x 6 header-overlap patterns x caller params/cookies/body presence is sent through the real HttpxTransport into an httpx.MockTransport; the captured request is compared with a case-insensitive merge model (defaults < per-request < plugins in order), API key location/name, and pass-through of caller params, cookies and body. Exhaustive over that finite configuration space; values/names are fixed representatives.",
+            "Trusts httpx.MockTransport as the wire; header names/values are representatives, not all strings.",
+            "DESIGN.md §4 C17"),
     "C18": ("exploration", "runtime monitoring: chunking-invariance + reference-model oracle over executions of the real stream decoders",
             "Runs the real iter_sse / iter_sse_events_text / iter_ndjson / iter_bytes over httpx responses fed by an async chunk "
             "iterator; every chunking of every short stream (exhaustive 2^(n-1)) and all single/double split points plus random "
